@@ -187,6 +187,8 @@ type caseRun struct {
 	armedPre *armed
 	realPre  map[string]bool          // the resource itself must refuse its next PreCommit
 	latePre  map[string]chan struct{} // ... and answer only after the resource's own timeout has expired
+	lateAck  map[string]bool          // the late answer is the ordinary ack, not "aborted"
+	slowAbt  map[string]bool          // delay the next Abort of this parameter a little
 	calls    map[string][]string
 
 	atts      []Step
@@ -263,6 +265,7 @@ func (cr *caseRun) lateDone(param string) {
 	if ch := cr.latePre[param]; ch != nil {
 		close(ch)
 		delete(cr.latePre, param)
+		cr.slowAbt[param] = true
 	}
 	cr.mu.Unlock()
 }
@@ -371,6 +374,15 @@ func (f *faulty) Commit(iface distsys.ArchetypeInterface) chan struct{} {
 
 func (f *faulty) Abort(iface distsys.ArchetypeInterface) chan struct{} {
 	f.cr.call(f.param, "A")
+	f.cr.mu.Lock()
+	slow := f.cr.slowAbt[f.param]
+	delete(f.cr.slowAbt, f.param)
+	f.cr.mu.Unlock()
+	if slow {
+		// let the late answer of the nested archetype be published before Abort starts, so that the
+		// answer and the nested archetype's next receive are both ready when Abort looks
+		time.Sleep(30 * time.Millisecond)
+	}
 	return f.inner.Abort(iface)
 }
 
@@ -518,7 +530,15 @@ func cellArchetype(cr *caseRun, param string, init tla.Value) distsys.MPCalArche
 						case <-late:
 						case <-time.After(20 * time.Second):
 						}
-						resp = ack("aborted")
+						cr.mu.Lock()
+						plain := cr.lateAck[param]
+						delete(cr.lateAck, param)
+						cr.mu.Unlock()
+						if plain {
+							resp = ack("precommit_ack")
+						} else {
+							resp = ack("aborted")
+						}
 					} else if cr.takeReal(param) {
 						resp = ack("aborted")
 					} else {
@@ -681,6 +701,7 @@ func (cr *caseRun) build() {
 	cr.calls = map[string][]string{}
 	cr.realPre = map[string]bool{}
 	cr.latePre = map[string]chan struct{}{}
+	cr.lateAck, cr.slowAbt = map[string]bool{}, map[string]bool{}
 	cr.attSends, cr.expected, cr.got = map[string]int{}, map[string]int{}, map[string]int{}
 	var np *netPair
 	var db *badger.DB
@@ -1091,8 +1112,9 @@ func (cr *caseRun) body(iface distsys.ArchetypeInterface) error {
 		cr.mu.Lock()
 		if att.PM == "real" {
 			cr.realPre[p] = true
-		} else if att.PM == "late" {
+		} else if att.PM == "late" || att.PM == "lateack" {
 			cr.latePre[p] = make(chan struct{})
+			cr.lateAck[p] = att.PM == "lateack"
 		} else {
 			cr.armedPre = &armed{param: p, mode: att.PM}
 		}
